@@ -1491,10 +1491,11 @@ def _split_flag_ifexp(fn: ast.FunctionDef) -> bool:
             if isinstance(st, ast.Try):
                 for h in st.handlers:
                     visit(h.body)
-            if isinstance(st, ast.Assign) and len(st.targets) == 1 and isinstance(st.targets[0], ast.Name) and isinstance(st.value, ast.IfExp) \
-                    and flag_of(st.value.test) and st.targets[0].id != flag_of(st.value.test):
-                a = ast.Assign(targets=[copy.deepcopy(st.targets[0])], value=st.value.body)
-                b = ast.Assign(targets=[copy.deepcopy(st.targets[0])], value=st.value.orelse)
+            tgt_ = st.targets[0] if isinstance(st, ast.Assign) and len(st.targets) == 1 else (st.target if isinstance(st, ast.AnnAssign) else None)
+            if isinstance(tgt_, ast.Name) and isinstance(getattr(st, "value", None), ast.IfExp) \
+                    and flag_of(st.value.test) and tgt_.id != flag_of(st.value.test):
+                a = ast.Assign(targets=[copy.deepcopy(tgt_)], value=st.value.body)
+                b = ast.Assign(targets=[copy.deepcopy(tgt_)], value=st.value.orelse)
                 new = ast.If(test=st.value.test, body=[a], orelse=[b])
                 for x in (a, b, new):
                     ast.copy_location(x, st)
@@ -1503,6 +1504,41 @@ def _split_flag_ifexp(fn: ast.FunctionDef) -> bool:
                 changed[0] = True
     visit(fn.body)
     return changed[0]
+
+
+def _split_attribute_tuple_assign(body: List[ast.stmt]) -> bool:
+    """`o.a, o.b = (x, y)` (a display of the same length on the right, at least one attribute / item target, no target read on
+    the right) -> `o.a = x` / `o.b = y`: stores into objects are looked for as plain assignments."""
+    changed = False
+    i = 0
+    while i < len(body):
+        st = body[i]
+        for field in ("body", "orelse", "finalbody"):
+            sub = getattr(st, field, None)
+            if isinstance(sub, list) and sub and isinstance(sub[0], ast.stmt) and not isinstance(st, (ast.FunctionDef, ast.AsyncFunctionDef, ast.ClassDef)):
+                changed |= _split_attribute_tuple_assign(sub)
+        if isinstance(st, ast.Try):
+            for h in st.handlers:
+                changed |= _split_attribute_tuple_assign(h.body)
+        if isinstance(st, ast.Assign) and len(st.targets) == 1 and isinstance(st.targets[0], (ast.Tuple, ast.List)) and isinstance(st.value, (ast.Tuple, ast.List)) \
+                and len(st.targets[0].elts) == len(st.value.elts) and not any(isinstance(e, ast.Starred) for e in st.targets[0].elts + st.value.elts) \
+                and any(isinstance(t, (ast.Attribute, ast.Subscript)) for t in st.targets[0].elts):
+            tt = [ast.unparse(t) for t in st.targets[0].elts]
+            rhs = " ".join(ast.unparse(v) for v in st.value.elts)
+            names_t = {n.id for t in st.targets[0].elts if isinstance(t, ast.Name) for n in [t]}
+            reads = {n.id for v in st.value.elts for n in ast.walk(v) if isinstance(n, ast.Name)}
+            if not any(t in rhs for t in tt if "." in t or "[" in t) and not (names_t & reads):
+                new = []
+                for t, v in zip(st.targets[0].elts, st.value.elts):
+                    a = ast.copy_location(ast.Assign(targets=[t], value=v), st)
+                    ast.fix_missing_locations(a)
+                    new.append(a)
+                body[i:i + 1] = new
+                changed = True
+                i += len(new)
+                continue
+        i += 1
+    return changed
 
 
 # ---------------------------------------------------------------------------------------------------------- assignment expressions
@@ -2083,6 +2119,9 @@ def normalize_module_trees(modules: Dict[str, ast.Module]) -> List[str]:
                     if _split_flag_ifexp(fn):
                         any_change = True
                         log.append("%s.%s: conditional expression on a flag split into branches" % (cls.name if cls else mn, fn.name))
+                    if _split_attribute_tuple_assign(fn.body):
+                        any_change = True
+                        log.append("%s.%s: tuple assignment to attributes split" % (cls.name if cls else mn, fn.name))
                     if _hoist_walrus(fn.body):
                         any_change = True
                         log.append("%s.%s: assignment expression(s) hoisted" % (cls.name if cls else mn, fn.name))
